@@ -70,10 +70,36 @@ func skippedWriteVerified(p *Prog, rule string) *RuleResult {
 	}
 	r.Instances++
 	key := "rebuildImpl output writer: silent return is justified"
+	// a helper of the package that reads the file back (a predicate such as "is the file unchanged")
+	readsBack := func(in ssa.Instruction) *ssa.Function {
+		c, ok := in.(ssa.CallInstruction)
+		if !ok {
+			return nil
+		}
+		callee := c.Common().StaticCallee()
+		if callee == nil || pkgPathOf(callee) != pkgPathOf(top) || len(callee.Blocks) == 0 {
+			return nil
+		}
+		found := false
+		eachInstr(callee, func(b2 *ssa.BasicBlock, in2 ssa.Instruction) {
+			if isCallTo(in2, "io/ioutil.ReadFile", "os.ReadFile") {
+				found = true
+			}
+		})
+		if found {
+			return callee
+		}
+		return nil
+	}
 	blockHasCall := func(b *ssa.BasicBlock, suffixes ...string) bool {
 		for _, in := range b.Instrs {
 			if isCallTo(in, suffixes...) {
 				return true
+			}
+			for _, sfx := range suffixes {
+				if strings.HasSuffix(sfx, "ReadFile") && readsBack(in) != nil {
+					return true
+				}
 			}
 		}
 		return false
@@ -132,10 +158,17 @@ func skippedWriteVerified(p *Prog, rule string) *RuleResult {
 		if isCallTo(in, "bytes.Equal") {
 			cmp = true
 		}
+		if h := readsBack(in); h != nil {
+			eachInstr(h, func(b2 *ssa.BasicBlock, in2 ssa.Instruction) {
+				if isCallTo(in2, "bytes.Equal") {
+					cmp = true
+				}
+			})
+		}
 	})
 	rd := false
 	eachInstr(writer, func(b *ssa.BasicBlock, in ssa.Instruction) {
-		if isCallTo(in, "io/ioutil.ReadFile", "os.ReadFile") {
+		if isCallTo(in, "io/ioutil.ReadFile", "os.ReadFile") || readsBack(in) != nil {
 			rd = true
 		}
 	})
